@@ -403,6 +403,11 @@ type extraPKI struct {
 	BadSigClient      map[string]*tlspair.Leaf
 	NoInterServer     map[string]*tlspair.Leaf // trusted leaf presented without the intermediate
 	CNOnly            map[string]*tlspair.Leaf // no SAN, CN = server name
+	// trusted server leaves for the server-name-forms family (key kind -> leaf)
+	NameIP6     map[string]*tlspair.Leaf // DNS server.test; IP 127.0.0.1, ::1
+	NameOtherIP map[string]*tlspair.Leaf // DNS wrong.test; IP 10.0.0.1, ::2
+	NameDNSOnly map[string]*tlspair.Leaf // DNS server.test; no IP SAN
+	NameCNIP    map[string]*tlspair.Leaf // no SAN, CN = "127.0.0.1"
 }
 
 var (
@@ -414,7 +419,8 @@ func getExtra() *extraPKI {
 	extraOnce.Do(func() {
 		p := tlspair.Get()
 		e := &extraPKI{ExpiredClient: map[string]*tlspair.Leaf{}, UntrustedClient: map[string]*tlspair.Leaf{}, ExpiredInterChain: map[string]*tlspair.Leaf{},
-			BadSigServer: map[string]*tlspair.Leaf{}, BadSigClient: map[string]*tlspair.Leaf{}, NoInterServer: map[string]*tlspair.Leaf{}, CNOnly: map[string]*tlspair.Leaf{}}
+			BadSigServer: map[string]*tlspair.Leaf{}, BadSigClient: map[string]*tlspair.Leaf{}, NoInterServer: map[string]*tlspair.Leaf{}, CNOnly: map[string]*tlspair.Leaf{},
+			NameIP6: map[string]*tlspair.Leaf{}, NameOtherIP: map[string]*tlspair.Leaf{}, NameDNSOnly: map[string]*tlspair.Leaf{}, NameCNIP: map[string]*tlspair.Leaf{}}
 		now := tlspair.Now
 		nb, na := now.Add(-365*24*time.Hour), now.Add(365*24*time.Hour)
 		inter, err := gox509.ParseCertificate(p.InterDER)
@@ -470,6 +476,16 @@ func getExtra() *extraPKI {
 			e.NoInterServer[k] = &tlspair.Leaf{Kind: k, DER: p.Server[k].DER, Key: s, Chain: [][]byte{p.Server[k].DER}}
 			d = mk(leafT(tlspair.ServerName, nil, sa, nb, na), inter, s.Public(), p.InterKey)
 			e.CNOnly[k] = &tlspair.Leaf{Kind: k, DER: d, Key: s, Chain: [][]byte{d, p.InterDER}}
+			nameLeaf := func(cn string, dns []string, ips []net.IP) *tlspair.Leaf {
+				t := &gox509.Certificate{Subject: pkix.Name{CommonName: cn}, DNSNames: dns, IPAddresses: ips, NotBefore: nb, NotAfter: na,
+					KeyUsage: gox509.KeyUsageDigitalSignature | gox509.KeyUsageKeyEncipherment, ExtKeyUsage: sa, BasicConstraintsValid: true}
+				d := mk(t, inter, s.Public(), p.InterKey)
+				return &tlspair.Leaf{Kind: k, DER: d, Key: s, Chain: [][]byte{d, p.InterDER}}
+			}
+			e.NameIP6[k] = nameLeaf(tlspair.ServerName, []string{tlspair.ServerName}, []net.IP{net.IPv4(127, 0, 0, 1).To4(), net.ParseIP("::1")})
+			e.NameOtherIP[k] = nameLeaf("wrong.test", []string{"wrong.test"}, []net.IP{net.IPv4(10, 0, 0, 1).To4(), net.ParseIP("::2")})
+			e.NameDNSOnly[k] = nameLeaf(tlspair.ServerName, []string{tlspair.ServerName}, nil)
+			e.NameCNIP[k] = nameLeaf("127.0.0.1", nil, nil)
 		}
 		extra = e
 	})
@@ -500,8 +516,39 @@ func pubKeyKind(k crypto.PublicKey) string {
 	return fmt.Sprintf("%T", k)
 }
 
+// guarded returns transport options with panic recovery switched on for both endpoint goroutines.
+func guarded(opt tlspair.Options) tlspair.Options {
+	opt.RecoverPanics = true
+	return opt
+}
+
+// reportPanics turns a panic recovered on an endpoint goroutine into a violation whose key names the
+// panic class and the first zcrypto frame. It reports whether there was one.
+func reportPanics(c *core.Ctx, r *tlspair.Result, caseID string, input any) bool {
+	found := false
+	for _, x := range []struct {
+		side string
+		pi   *core.PanicInfo
+	}{{"client", r.CPanic}, {"server", r.SPanic}} {
+		if x.pi == nil {
+			continue
+		}
+		found = true
+		c.Violation(x.pi.Key, x.side+" endpoint panicked: "+x.pi.Value+"\n"+x.pi.Stack, caseID, input)
+	}
+	return found
+}
+
+// suppressWatchdogOnce: set when a run was already accounted for (panic reported) and the caller's generic
+// "undecided" path must not also count a watchdog firing. The drivers are single-goroutine.
+var suppressWatchdogOnce bool
+
 // watchdog bookkeeping shared by the three monitors: a firing is inconclusive, never a verdict.
 func noteWatchdog(c *core.Ctx, where string) {
+	if suppressWatchdogOnce {
+		suppressWatchdogOnce = false
+		return
+	}
 	c.Count("watchdog_fired", 1)
 	c.Note("watchdog fired (%s): case not decided", where)
 }
